@@ -351,9 +351,44 @@ def r5(ctx):
         ctx.ok(rule, "read_literal#location-before-consumption", detail)
 
 
+def r6(ctx):
+    rule = "C13.R6"
+    ctx.rule(rule, "lexical decisions are made per character: Tokenizer::parse looks at the text only through `lines()` and `chars()` - "
+                   "no search, split, trim or slice of a whole line (`line.find(\"--\")`, `split(\"/*\")`, `&line[..i]`) - because "
+                   "whether `--` starts a comment depends on the block-comment depth *at that character*, which only the character "
+                   "loop knows (a line cut at its first `--` loses the `*/` behind a `--` inside a block comment)")
+    P = ctx.program()
+    bs = [b for b in P.lib_bodies("asn1rs_model") if b.name == "parse" and "Tokenizer" in b.path and b.def_kind == "AssocFn"]
+    if len(bs) != 1:
+        ctx.fail(rule, "anchor-lost:Tokenizer::parse", "matched %d bodies" % len(bs))
+        return
+    b = bs[0]
+    allowed = {"lines", "chars", "char_indices", "len", "is_empty", "bytes"}
+    n = 0
+    bad = []
+    for body in [b] + P.closures_of(b):
+        for cs in body.calls():
+            callee = cs.callee or ""
+            st = (cs.fn or {}).get("self_ty") or ""
+            on_str = "<impl str>" in callee or st in ("str", "&str") or ("Index" in (cs.trait or "") and "str" == st)
+            if not on_str:
+                continue
+            n += 1
+            if cs.name not in allowed:
+                bad.append((cs.name, cs.loc()))
+    d = {"function": b.path, "text_level_calls": n, "other_than_lines_chars": bad}
+    if bad:
+        ctx.fail(rule, "Tokenizer::parse#whole-line-operation", "`%s` at %s works on a whole line of the input: the decision it makes does not "
+                                                                "know the comment depth at the characters it skips" % bad[0], bad[0][1], d)
+    else:
+        ctx.ok(rule, "Tokenizer::parse#per-character", d)
+    ctx.floor(rule, n, "C13.R6.calls")
+
+
 def run(ctx):
     r1(ctx)
     r2(ctx)
     r3(ctx)
     r4(ctx)
     r5(ctx)
+    r6(ctx)
